@@ -285,6 +285,23 @@ def fam_closerace(rng, tier):
     return res
 
 
+def fam_errwake(rng, tier):
+    """a fiber blocked on a descriptor whose readiness becomes ERROR-ONLY (EPOLLERR without IN/OUT): a writer blocked on
+    a full pipe whose read end is then closed (a plain blocking write returns -1/EPIPE at that moment); a reader blocked
+    on a socket whose peer is shut down / closed gets EOF (HUP).  The blocked call must be resumed and report what the
+    plain call reports."""
+    res = []
+    for nkt in (1, 2):
+        for tx in (0, 2):          # write / writev until 4 MB (blocks when the pipe is full)
+            thr = [[(O_WRITE_ALL, 1, 4000000, tx)], [(O_SLEEP, 0, 80, 0), (O_CLOSE, 0, 0, 0)]]
+            res.append(Script("errwake", [1], thr, nkt=nkt, timeout=3000, policy="totals"))
+        for kind in (0, 2):        # reader blocked, peer closes: EOF
+            for rx in (O_READ, O_RECV):
+                thr = [[(rx, 0, 10, 0)], [(O_SLEEP, 0, 80, 0), (O_CLOSE, 1, 0, 0)]]
+                res.append(Script("errwake", [kind], thr, nkt=nkt, timeout=3000))
+    return res
+
+
 def fam_idiom(rng, tier):
     """the usual ways programs switch modes (beyond the exact forms the shims special-case)"""
     res = []
@@ -360,7 +377,7 @@ def fam_duplex(rng, tier):
     return res
 
 
-FAMILIES = [fam_closerace, fam_duplex, fam_mix, fam_transfer, fam_pingpong, fam_multi, fam_nonblock, fam_badfd, fam_accept, fam_closewake, fam_migrate]
+FAMILIES = [fam_errwake, fam_closerace, fam_duplex, fam_mix, fam_transfer, fam_pingpong, fam_multi, fam_nonblock, fam_badfd, fam_accept, fam_closewake, fam_migrate]
 
 
 def gen_scripts(ctx, tier):
@@ -525,6 +542,8 @@ def classify(sc, why, I=None):
 CLASS_ID = {"bad-fd-close": "F-C08a", "bad-fd-modeswitch": "F-C08b", "nonblocking-ignored": "F-C08c",
             "accept-eagain": "F-C08d", "mode-idiom": "F-C08e", "stale-errno": "F-C08f"}
 CLASS_TEXT = {
+    "other:errwake": "a fiber blocked on a descriptor is not resumed when the kernel reports an error-only / hang-up "
+                     "readiness for it (the plain blocking call returns EPIPE / EOF at that moment)",
     "other:closerace": "a descriptor created by another thread while close() is in progress (it receives the number the "
                        "kernel just released) loses its bookkeeping: close() touches fd_info / the event layer after the real close",
     "other:duplex": "a fiber blocked on a descriptor is not resumed when it becomes ready while another fiber is blocked on "
